@@ -124,6 +124,10 @@ Verdict(t) ==
   IF ~NoBetterInNet(res, NetBest(H), M3Tr(AA) + bb, tau2) THEN "REJECT NoBetterInNet" ELSE
   IF t.kind = "points" /\ ~ReorientOK(A, R, t.AR) THEN "REJECT Reorient" ELSE
   IF t.kind = "points" /\ ~RmsdOK(ObsResid2Points(t.AR, B), Len(A), t.rmsd) THEN "REJECT Rmsd" ELSE
+  \* a request for reorientation in another spelling (True, 1, "Kabsch", ...) is honoured or refused, never silently ignored:
+  \* a value that comes back is the RMSD after the optimal alignment (2^-18 slack on the 2^-20 scale)
+  IF t.kind = "points" /\ \E i \in DOMAIN t.rmsd_alt : t.rmsd_alt[i].exc = "" /\
+        (t.rmsd_alt[i].v - t.rmsd > 4 \/ t.rmsd - t.rmsd_alt[i].v > 4) THEN "REJECT RmsdReorientRequestIgnored" ELSE
   "ACCEPT"
 
 Ids(b) == {i \in 1..Len(Traces) : i % NBlocks = b - 1}
